@@ -11,7 +11,14 @@ import (
 )
 
 // Fixed tolerances of the uv-identities group (see NOTES.md).
+// uvPoint is one argument of the grid with its origin tag.
+type uvPoint struct {
+	x   float64
+	tag string
+}
+
 const (
+	tolQInvTail = 1e-6 // far-tail quantile points: |CDF(Quantile(p))-p| <= 1e-6*min(p,1-p) replaces the absolute 1e-12
 	tolSurvRel  = 1e-9  // |S+C-1| <= tolSurvRel*min(S,C) + tolSurvAbs
 	tolSurvAbs  = 1e-15 //
 	tolProbExp  = 1e-12 // Prob vs exp(LogProb), relative
@@ -73,6 +80,8 @@ type uvCtx struct {
 	// probLogMismatch: Prob and exp(LogProb) disagree somewhere; the quadrature then
 	// integrates Prob (the identities are stated for Prob) instead of exp(LogProb).
 	probLogMismatch bool
+	// allx is the whole argument grid of a continuous law (sorted, distinct).
+	allx []uvPoint
 }
 
 func checkUV(t *vlib.T, sp uvSpec, p []float64) {
@@ -329,17 +338,82 @@ func (c *uvCtx) continuous() {
 	}
 
 	span := c.qx[len(c.qx)-1] - c.qx[0]
-	// argument grid: quantile points, midpoints, edges, outside.
-	type pt struct {
-		x   float64
-		tag string
+	// Extra quantile points: far tails and the switch points of the quantile formulas
+	// (NormalQuantile: |p-1/2| = 0.425 and sqrt(-log p) = 5; Laplace, StudentsT, F, Triangle:
+	// p = 1/2 resp. p = CDF(Mode)).
+	extraP := []float64{1e-300, 1e-100, 1e-30, 1e-15, 1e-12, 1e-9, 1 - 1e-9, 1 - 1e-12, 1 - 1e-15}
+	extraP = append(extraP, ulps(0.5, 0.075, 0.925)...)
+	extraP = append(extraP, math.Exp(-25)*0.99, math.Exp(-25)*1.01, 1-math.Exp(-25)*0.99, 1-math.Exp(-25)*1.01)
+	if cd, ok := c.d.(hasCDF); ok {
+		if m, ok := c.d.(hasMode); ok {
+			var pm float64
+			if catch(func() { pm = cd.CDF(m.Mode()) }) == nil && pm > 0 && pm < 1 {
+				extraP = append(extraP, ulps(pm)...)
+			}
+		}
 	}
+	extraP = set(extraP)
+	var ex, exP []float64
+	{
+		prevX, prevP := math.Inf(-1), 0.0
+		ci := 0
+		for _, p := range extraP {
+			if !(p > 0 && p < 1) {
+				continue
+			}
+			var x float64
+			if pv := catch(func() { x = c.quant(p) }); pv != nil {
+				r.cls(c.tailClass(0, p), "Quantile-panic", "p="+g(p), "Quantile panics: %v", pv)
+				continue
+			}
+			if math.IsNaN(x) || x < c.lo || x > c.hi {
+				r.cls(c.tailClass(x, p), "Quantile-in-support", "p="+g(p), "Quantile=%v is not in the support [%v,%v]", x, c.lo, c.hi)
+				continue
+			}
+			// monotone against the previous extra point and the core points passed on the way
+			for ci < len(c.qp) && c.qp[ci] <= p {
+				if c.qx[ci] >= prevX || c.qp[ci] < prevP {
+					prevX, prevP = c.qx[ci], c.qp[ci]
+				}
+				ci++
+			}
+			if x < prevX {
+				r.cls(c.tailClass(x, p), "Quantile-monotone", "p="+g(p), "Quantile(%v)=%v < Quantile(%v)=%v", p, x, prevP, prevX)
+			}
+			prevX, prevP = x, p
+			ex = append(ex, x)
+			exP = append(exP, p)
+		}
+	}
+	// argument grid: quantile points, midpoints, edges, points next to the edges, outside, far tails.
+	type pt = uvPoint
 	var xs []pt
 	for i, x := range c.qx {
 		xs = append(xs, pt{x, "q "})
 		if i+1 < len(c.qx) {
 			xs = append(xs, pt{x + (c.qx[i+1]-x)/2, "mid "})
 		}
+	}
+	for _, x := range ex {
+		if isFinite(x) && x > c.lo && x < c.hi {
+			xs = append(xs, pt{x, "xq "})
+		}
+	}
+	// inside, next to a finite end of the support
+	if isFinite(c.lo) {
+		for _, d := range []float64{1e-12 * span, 1e-6 * span} {
+			xs = append(xs, pt{c.lo + d, "near "})
+		}
+		xs = append(xs, pt{math.Nextafter(c.lo, math.Inf(1)), "near "})
+		if c.lo == 0 {
+			xs = append(xs, pt{1e-300, "near "}, pt{1e-100, "near "})
+		}
+	}
+	if isFinite(c.hi) {
+		for _, d := range []float64{1e-12 * span, 1e-6 * span} {
+			xs = append(xs, pt{c.hi - d, "near "})
+		}
+		xs = append(xs, pt{math.Nextafter(c.hi, math.Inf(-1)), "near "})
 	}
 	if isFinite(c.lo) {
 		xs = append(xs, pt{c.lo, "edge "}, pt{c.lo - span, "out "}, pt{c.lo - 1e-3*span, "out "}, pt{math.Nextafter(c.lo, math.Inf(-1)), "out "})
@@ -349,14 +423,28 @@ func (c *uvCtx) continuous() {
 			xs = append(xs, pt{-1 - span, "out "})
 		}
 	} else {
-		xs = append(xs, pt{c.qx[0] - 3*span, "far "}, pt{c.qx[0] - 3000*span, "vfar "})
+		xs = append(xs, pt{c.qx[0] - 3*span, "far "}, pt{c.qx[0] - 30*span, "far "}, pt{c.qx[0] - 3000*span, "vfar "}, pt{c.qx[0] - 3e6*span, "vfar "}, pt{-1e300, "vfar "})
 	}
 	if isFinite(c.hi) {
 		xs = append(xs, pt{c.hi, "edge "}, pt{c.hi + span, "out "}, pt{c.hi + 1e-3*span, "out "}, pt{math.Nextafter(c.hi, math.Inf(1)), "out "})
 	} else {
-		xs = append(xs, pt{c.qx[len(c.qx)-1] + 3*span, "far "}, pt{c.qx[len(c.qx)-1] + 3000*span, "vfar "})
+		xs = append(xs, pt{c.qx[len(c.qx)-1] + 3*span, "far "}, pt{c.qx[len(c.qx)-1] + 30*span, "far "}, pt{c.qx[len(c.qx)-1] + 3000*span, "vfar "}, pt{c.qx[len(c.qx)-1] + 3e6*span, "vfar "}, pt{1e300, "vfar "})
 	}
 	sort.SliceStable(xs, func(i, j int) bool { return xs[i].x < xs[j].x })
+	{ // drop duplicates and points that fell outside by rounding
+		o := xs[:0]
+		for i, q := range xs {
+			if i > 0 && q.x == xs[i-1].x {
+				continue
+			}
+			if (q.tag == "near " || q.tag == "xq ") && !(q.x > c.lo && q.x < c.hi) {
+				continue
+			}
+			o = append(o, q)
+		}
+		xs = o
+	}
+	c.allx = xs
 	for _, q := range xs {
 		c.pointwise(q.x, q.tag)
 	}
@@ -376,12 +464,37 @@ func (c *uvCtx) continuous() {
 			}
 			prev, prevx = cv, q.x
 		}
-		// CDF(Quantile(p)) = p.
-		for i, x := range c.qx {
-			p := c.qp[i]
+		// CDF(Quantile(p)) = p. For the far-tail points the absolute part of the tolerance shrinks
+		// with the tail (1e-6 relative); p > 1/2 is known to the implementation only up to the
+		// rounding of 1-p. A quantile is also right when p lies between the CDF values of its two
+		// floating-point neighbours (generalised inverse at float resolution: under/overflow of
+		// the true quantile, e.g. Gamma{0.3,1}.Quantile(1e-300) = 0).
+		chk := func(x, p float64) {
 			cv := c.cdf(x)
-			if math.Abs(cv-p) > tolQInvRel*math.Min(p, 1-p)+tolQInvAbs+c.cdfAllow(x) {
-				r.cls(c.tailClass(x, p), "CDF(Quantile(p))=p", "p="+g(p), "Quantile=%v CDF=%v err=%g", x, cv, cv-p)
+			tail := math.Min(p, 1-p)
+			tol := tolQInvRel*tail + math.Min(tolQInvAbs, tolQInvTail*tail) + c.cdfAllow(x)
+			if p > 0.5 {
+				tol += 4 * 0x1p-53
+			}
+			if math.Abs(cv-p) <= tol {
+				return
+			}
+			var lo, hi float64
+			if catch(func() {
+				lo = c.cdf(math.Max(c.lo, math.Nextafter(x, math.Inf(-1))))
+				hi = c.cdf(math.Min(c.hi, math.Nextafter(x, math.Inf(1))))
+			}) == nil && lo <= p && p <= hi {
+				c.t.Count("quantiles_right_at_float_resolution_only", 1)
+				return
+			}
+			r.cls(c.tailClass(x, p), "CDF(Quantile(p))=p", "p="+g(p), "Quantile=%v CDF=%v err=%g (tolerance %g)", x, cv, cv-p, tol)
+		}
+		for i, x := range c.qx {
+			chk(x, c.qp[i])
+		}
+		for i, x := range ex {
+			if isFinite(x) {
+				chk(x, exP[i])
 			}
 		}
 	}
